@@ -64,7 +64,7 @@ def rows_tokens(rows):
 def chk_line(hist, rows, tmin, moves, nodes=None, statuses=('S', 'I', 'R'), default=None):
     nodes = list(hist.keys()) if nodes is None else list(nodes)
     lab = Labels(nodes); table = dict(STATUS_ID)
-    obj = inv_tokens(lab, nodes, hist, default, list(statuses), table)
+    obj = inv_tokens(lab, nodes, hist, default, None if statuses is None else list(statuses), table)
     mv = '%d %s' % (len(moves), ' '.join('%d %d' % (status_id(a, table), status_id(b, table)) for a, b in moves))
     return 'INVCHK %s %s %s %s' % (obj, rows_tokens(rows), q(tmin), mv), lab
 
